@@ -214,3 +214,67 @@ Proof.
   - apply negb_true_iff. apply N.eqb_neq. exact L.
   - apply N.leb_le. lia.
 Qed.
+
+(* ---------- list order of the visits ---------- *)
+Lemma walk_lchain h : forall ids p k,
+  lchain h p ids -> length ids <= k -> walk_ids h k (hd_error ids) = ids.
+Proof.
+  induction ids as [|x r IH]; intros p k H Hk; cbn [hd_error].
+  - destruct k; reflexivity.
+  - destruct k as [|k]; [cbn [length] in Hk; lia|]. cbn [walk_ids].
+    destruct H as [nd [A [_ [_ [B C]]]]]. rewrite A, B. f_equal. apply (IH (Some x)); [exact C|cbn [length] in Hk; lia].
+Qed.
+
+Lemma nodup_bounded_length : forall (l : list nat) n, NoDup l -> (forall x, In x l -> x < n) -> length l <= n.
+Proof.
+  intros l n Hn Hb.
+  assert (I : incl l (seq 0 n)) by (intros x Hx; apply in_seq; specialize (Hb x Hx); lia).
+  pose proof (NoDup_incl_length Hn I) as H. rewrite seq_length in H. exact H.
+Qed.
+
+Lemma list_ids_ginv g ids : GInv g ids -> list_ids g = ids.
+Proof.
+  intros G. unfold list_ids. rewrite (gi_head _ _ G).
+  apply (walk_lchain (heap g) ids None); [exact (gi_chain _ _ G)|].
+  apply nodup_bounded_length; [exact (gi_nodup _ _ G)|]. intros x Hx. eapply lchain_bound; [exact (gi_chain _ _ G)|exact Hx].
+Qed.
+
+Lemma memb_in v ids : memb v ids = true <-> In v ids.
+Proof.
+  unfold memb. rewrite existsb_exists. split.
+  - intros [x [A B]]. apply Nat.eqb_eq in B. subst. exact A.
+  - intros H. exists v. split; [exact H|apply Nat.eqb_refl].
+Qed.
+
+Lemma beforeb_precedes ids v w : NoDup ids -> precedes ids v w -> beforeb ids v w = true.
+Proof.
+  intros Hn [a [b [c E]]]. subst ids. induction a as [|x a IH]; cbn [app beforeb].
+  - rewrite Nat.eqb_refl. apply memb_in. apply in_or_app. right. left. reflexivity.
+  - inversion Hn as [|? ? Hx Hr]; subst.
+    destruct (Nat.eqb_spec x v) as [->|Hne]; [exfalso; apply Hx; apply in_or_app; right; left; reflexivity|].
+    apply IH. exact Hr.
+Qed.
+
+Lemma not_yet_visited capt ids0 st w nd :
+  TInv capt ids0 st -> tph st = false -> tcur st = Some w -> nth_error (heap (tg st)) w = Some nd ->
+  GenCL.visit_cond (ctr nd) capt = true -> ~ In w (tvis st).
+Proof.
+  intros HT Hp Hc Hn Hv Hin.
+  assert (Hl : live nd) by (eapply visit_cond_live; exact Hv).
+  assert (Hw : In w (tids st)) by (eapply gi_live; [exact (ti_g _ _ _ HT)|exact Hn|exact Hl]).
+  assert (Hfl : first_live (heap (tg st)) (tcur st) (Some w)) by (rewrite Hc; eapply fl_live; eauto).
+  destruct (ti_behind _ _ _ HT _ Hfl w Hin) as [A|[A _]]; [|congruence].
+  apply A. unfold ahead. cbn [sfrom_o]. apply sfrom_self. exact Hw.
+Qed.
+
+(* the check the machine makes at every visit succeeds while CLTrav's invariant holds *)
+Lemma visit_is_ordered capt ids0 st w nd :
+  TInv capt ids0 st -> tph st = false -> tcur st = Some w -> nth_error (heap (tg st)) w = Some nd ->
+  GenCL.visit_cond (ctr nd) capt = true -> ordered_visit (tg st) (tvis st) w = true.
+Proof.
+  intros HT Hp Hc Hn Hv. pose proof (not_yet_visited capt ids0 st w nd HT Hp Hc Hn Hv) as Hnw. unfold ordered_visit. rewrite (list_ids_ginv _ _ (ti_g _ _ _ HT)).
+  apply forallb_forall. intros v Hvv. destruct (memb v (tids st)) eqn:Em; [|reflexivity]. cbn [negb orb].
+  apply beforeb_precedes; [exact (gi_nodup _ _ (ti_g _ _ _ HT))|].
+  apply (order_from_TInv capt ids0 st w nd HT Hc Hn Hv v Hvv); [apply memb_in; exact Em|].
+  intro E. subst v. exact (Hnw Hvv).
+Qed.
